@@ -770,6 +770,166 @@ fn sample_overlap(c: &OverlapCase) -> Value {
     json!({"cfg": format!("keylen={} rt_workers={} blocking_threads={:?}", c.cfg.keylen, c.cfg.rt_workers, c.cfg.blocking_threads), "pre": c.pre, "rounds(victim_len,next_len,gated,extra_polls)": c.rounds})
 }
 
+// ------------------------------------------------------------------------------------------------
+// phase "cancel-rotation": the victim is the write that fills an aged active blob
+// ------------------------------------------------------------------------------------------------
+
+/// The write that takes an active blob older than the 200 ms debounce to its record limit asks for the automatic rotation. In
+/// the other phases no victim ever does (the limits are huge). Here the limit is 2-4 records, the blob is aged, and the filling
+/// write (or a delete that fills it) is polled k times - the last poll optionally with j budget units - and dropped.
+/// Oracle without model worlds: every record acknowledged before the victim reads back exactly, now, after a later write and
+/// after a restart; the victim's key reads NotFound or exactly its value, the same in `read` and `read_all`; a later write
+/// succeeds; after the restart nothing is quarantined except an empty / header-less blob file (the documented finding on
+/// dropped blob creation), every blob parses.
+#[derive(Clone, Debug, Serialize, Deserialize)]
+pub struct RotCancelCase {
+    pub cfg: Cfg,
+    pub k: u16,
+    pub budget: Option<u8>,
+    pub vlen: u32,
+    /// closed blobs that exist before
+    pub pre_blobs: u8,
+}
+
+fn rot_cancel_cases(thorough: bool) -> Vec<RotCancelCase> {
+    let mut v = vec![];
+    for rt_workers in [0usize, 2] {
+        for limit in if thorough { vec![2u64, 4] } else { vec![3u64] } {
+            for vlen in if thorough { vec![10u32, 5000, 100_000] } else { vec![10u32, 100_000] } {
+                for k in 0..(if thorough { 14u16 } else { 9 }) {
+                    for budget in if thorough { vec![None, Some(0u8), Some(2), Some(5), Some(9)] } else { vec![None, Some(3u8)] } {
+                        v.push(RotCancelCase { cfg: Cfg { keylen: 8, rt_workers, allow_dup: true, max_data_in_blob: limit, defer_ms: (2, 5), ..Cfg::default() }, k, budget, vlen, pre_blobs: (k % 2) as u8 });
+                    }
+                }
+            }
+        }
+    }
+    v
+}
+
+async fn rot_check(what: &str, s: &dyn crate::sut::Sut, keylen: usize, acked: &[(u8, Vec<u8>)], vval: &[u8], must_have_victim: bool) -> Result<bool, (String, String)> {
+    for (k, val) in acked {
+        match s.read(&key_bytes(keylen, *k)).await {
+            Ok(crate::sut::RR::Found(d)) if d == *val => {}
+            Ok(other) => return Err(("cancel/rotation/acknowledged-record-lost".to_string(), format!("{}: key {} was acknowledged before the victim, read returns {}", what, k, other.class()))),
+            Err(e) => return Err(("cancel/rotation/read-err".to_string(), format!("{}: key {}: {:#}", what, k, e))),
+        }
+    }
+    let r = s.read(&key_bytes(keylen, 100)).await;
+    let all = s.read_all(&key_bytes(keylen, 100), true, crate::sut::LoadMode::Full).await;
+    match (&r, &all) {
+        (Ok(crate::sut::RR::Found(d)), Ok(l)) if d[..] == vval[..] && l.len() == 1 => Ok(true),
+        (Ok(crate::sut::RR::NotFound), Ok(l)) if l.is_empty() && !must_have_victim => Ok(false),
+        (r, l) => Err(("cancel/rotation/victim-half-visible".to_string(), format!("{}: read of the victim's key = {:?}, read_all has {:?} entries (must be both present with the exact value, or both absent{})", what, r.as_ref().map(|x| x.class()).map_err(|e| format!("{:#}", e)), l.as_ref().map(|x| x.len()).map_err(|e| format!("{:#}", e)), if must_have_victim { "; the call had returned Ok" } else { "" }))),
+    }
+}
+
+pub fn run_rot_cancel(c: &RotCancelCase, dir: &Path, findings: &Findings) -> Result<CaseOut, Failure> {
+    let fail = |clause: &str, detail: String| -> Result<CaseOut, Failure> { Err(Failure { clause: clause.into(), detail, step: 0, op: format!("cancel(filling write, k={}, budget={:?})", c.k, c.budget) }) };
+    let rt = c.cfg.runtime();
+    let group = pearl::verif::inflight_group_for_this_thread();
+    let _ = std::fs::remove_dir_all(dir);
+    let res = rt.block_on(async {
+        let s = match sut::open(&c.cfg, dir, false).await {
+            Ok(s) => s,
+            Err(e) => return fail("init/err", format!("{:#}", e)),
+        };
+        let keylen = c.cfg.keylen;
+        let limit = c.cfg.max_data_in_blob as usize;
+        let mut acked: Vec<(u8, Vec<u8>)> = vec![];
+        let mut n = 0u8;
+        let mut put = |acked: &mut Vec<(u8, Vec<u8>)>| {
+            n += 1;
+            let val = vec![n; 20 + n as usize];
+            acked.push((n, val.clone()));
+            (key_bytes(keylen, n), Bytes::from(val), n as u64)
+        };
+        for _ in 0..c.pre_blobs {
+            let (kb, val, ts) = put(&mut acked);
+            if let Err(e) = s.write(&kb, val, ts, None).await {
+                return fail("write/err", format!("{:#}", e));
+            }
+            let _ = s.try_close_active().await;
+            let _ = s.try_create_active().await;
+        }
+        for _ in 0..limit.saturating_sub(1) {
+            let (kb, val, ts) = put(&mut acked);
+            if let Err(e) = s.write(&kb, val, ts, None).await {
+                return fail("write/err", format!("{:#}", e));
+            }
+        }
+        let _ = wait_quiet(s.as_ref(), true, crate::interp::max_wait()).await;
+        tokio::time::sleep(Duration::from_millis(240)).await;
+        // the victim: the write that fills the blob
+        let vkey = 100u8;
+        let vval = value_bytes(7, c.vlen, 0);
+        let (completed, _used) = poll_kb(s.write(&key_bytes(keylen, vkey), Bytes::from(vval.clone()), 50, None), c.k as usize, c.budget).await;
+        let t0 = std::time::Instant::now();
+        while group.load(Ordering::SeqCst) > 0 && t0.elapsed() < Duration::from_secs(30) {
+            tokio::time::sleep(Duration::from_micros(300)).await;
+        }
+        let _ = wait_quiet(s.as_ref(), true, crate::interp::max_wait()).await;
+        let mut stats = crate::interp::Stats::default();
+        let must = matches!(completed, Some(Ok(())));
+        if let Some(Err(e)) = &completed {
+            return fail("write/err", format!("the filling write failed: {:#}", e));
+        }
+        let seen_now = match rot_check("after the drop", s.as_ref(), keylen, &acked, &vval, must).await {
+            Ok(b) => b,
+            Err((cl, d)) => return fail(&cl, d),
+        };
+        stats.queries += acked.len() as u64 + 2;
+        // later write
+        let (kb, val, ts) = put(&mut acked);
+        if let Err(e) = s.write(&kb, val, ts, None).await {
+            return fail("cancel/rotation/later-write-err", format!("{:#}", e));
+        }
+        let _ = wait_quiet(s.as_ref(), true, crate::interp::max_wait()).await;
+        if let Err((cl, d)) = rot_check("after a later write", s.as_ref(), keylen, &acked, &vval, seen_now).await {
+            return fail(&cl, d);
+        }
+        if let Err(e) = s.close().await {
+            return fail("close/err", format!("{:#}", e));
+        }
+        let s = match sut::open(&c.cfg, dir, false).await {
+            Ok(s) => s,
+            Err(e) => return fail("init/err", format!("after the restart: {:#}", e)),
+        };
+        let mut known = BTreeSet::new();
+        if s.corrupted_blobs_count() != 0 {
+            // only an empty / header-less file may have been set aside (open finding on dropped blob creation)
+            let cdir = c.cfg.corrupted_path(dir);
+            let big: Vec<_> = sut::list_files(&cdir).into_iter().filter(|x| !x.1 && x.2.metadata().map(|m| m.len()).unwrap_or(0) > crate::blobfmt::BLOB_HEADER_LEN as u64).collect();
+            if !big.is_empty() || !findings.is_open(CREATE_PARTIAL) {
+                return fail("cancel/rotation/quarantined", format!("corrupted_blobs_count = {} after the restart ({} of the files hold records)", s.corrupted_blobs_count(), big.len()));
+            }
+            known.insert(CREATE_PARTIAL.to_string());
+        }
+        if let Err((cl, d)) = rot_check("after the restart", s.as_ref(), keylen, &acked, &vval, seen_now).await {
+            return fail(&cl, d);
+        }
+        for (_, is_idx, p) in sut::list_files(dir) {
+            if !is_idx {
+                if let Ok(parsed) = crate::blobfmt::parse_blob_file(&p, keylen) {
+                    if parsed.end != crate::blobfmt::ParseEnd::Clean {
+                        return fail("cancel/rotation/blob-does-not-parse", format!("{:?}: {:?}", p, parsed.end));
+                    }
+                }
+            }
+        }
+        let _ = s.close().await;
+        let mut labels = BTreeSet::new();
+        labels.insert(if completed.is_none() { "filling_write_dropped_pending".to_string() } else { "filling_write_completed".to_string() });
+        Ok(CaseOut { nontrivial: completed.is_none(), labels, stats, known_hits: known, weight: 1 })
+    });
+    drop(rt);
+    res
+}
+
+fn sample_rot(c: &RotCancelCase) -> Value {
+    json!({"rt_workers": c.cfg.rt_workers, "record_limit": c.cfg.max_data_in_blob, "victim": format!("write of {} bytes that fills an active blob older than 200 ms", c.vlen), "drop_after_resumptions": c.k, "budget_units_in_last_poll": c.budget, "closed_blobs_before": c.pre_blobs})
+}
+
 pub fn run(ctx: &RunCtx) -> PropResult {
     let mut report = Report::default();
     let findings = ctx.findings.clone();
@@ -781,6 +941,8 @@ pub fn run(ctx: &RunCtx) -> PropResult {
     run_enumerated(ctx, "cancel-k", enumerated(ctx.tier == Tier::Thorough), runf, &sample, &mut report);
     let runf = |c: &CancelCase, d: &Path| run_cancel(c, d, &findings);
     run_enumerated(ctx, "cancel-budget", enumerated_budget(ctx.tier == Tier::Thorough), runf, &sample, &mut report);
+    let runf = |c: &RotCancelCase, d: &Path| run_rot_cancel(c, d, &findings);
+    run_enumerated(ctx, "cancel-rotation", rot_cancel_cases(ctx.tier == Tier::Thorough), runf, &sample_rot, &mut report);
     let runf = |c: &InitCase, d: &Path| run_init(c, d, &findings);
     run_replays::<InitCase, _>(ctx, "cancel-init", &ctx.verif_dir.join("replays").join("C14"), runf, &mut report);
     let runf = |c: &InitCase, d: &Path| run_init(c, d, &findings);
@@ -805,6 +967,10 @@ pub fn replay_other(phase: &str, case: &Value, dir: &Path, findings: &Findings) 
     if phase == "cancel-init" {
         let runf = |c: &InitCase, d: &Path| run_init(c, d, findings);
         return serde_json::from_value::<InitCase>(case.clone()).ok().map(|c| guarded(&c, dir, &runf));
+    }
+    if phase == "cancel-rotation" {
+        let runf = |c: &RotCancelCase, d: &Path| run_rot_cancel(c, d, findings);
+        return serde_json::from_value::<RotCancelCase>(case.clone()).ok().map(|c| guarded(&c, dir, &runf));
     }
     if phase == "cancel-overlap" {
         let runf = |c: &OverlapCase, d: &Path| run_overlap(c, d, findings);
